@@ -63,6 +63,32 @@ def body(c):
     c.vh(["c04", "record", runs, tpath])
     validate_trace(c, "Trace_TypeInference", "Trace_TypeInference.cfg", tpath,
                    lambda ev: ("c04:trace", json.dumps(ev)[:600]), heap="8g", env={"CMRN": 8})
+    # ---- "never a panic": deeply nested programs through the construction API, one per process (a stack overflow
+    # aborts the process), on the main thread and on a thread with the default 2 MiB stack: build, finalise, encode, drop
+    import subprocess
+    deep = {}
+    for shape in ("injl", "take", "comp", "unify"):
+        for depth in ((1000, 20000, 400000) if q else (1000, 5000, 20000, 100000, 400000, 1000000)):
+            if shape == "unify" and depth > 100000:
+                continue
+            for place in ("main", "thread"):
+                c.evaluations += 1
+                try:
+                    pr = subprocess.run([VH, "c20", "deepbuild", shape, str(depth), place], stdout=subprocess.PIPE, stderr=subprocess.PIPE, timeout=900)
+                except subprocess.TimeoutExpired:
+                    c.report("c04:deep-timeout", "building %s nested %d deep on the %s thread did not finish in 900 s" % (shape, depth, place), {"shape": shape, "depth": depth, "place": place})
+                    continue
+                if pr.returncode == 0:
+                    deep["%s %d %s" % (shape, depth, place)] = "ok"
+                    c.traces += 1
+                else:
+                    overflow = b"overflowed its stack" in pr.stderr
+                    deep["%s %d %s" % (shape, depth, place)] = "abort"
+                    fp = "c04:deep-unification-overflow" if (overflow and shape == "unify" and depth >= 10000) else "c04:deep-build-abort"
+                    c.report(fp, "building, finalising and dropping a program (%s nested %d deep) on the %s thread killed the process (exit %d%s)" % (
+                        shape, depth, place, pr.returncode, ", stack overflow" if overflow else ""),
+                        {"shape": shape, "depth": depth, "place": place, "stderr": pr.stderr.decode(errors="replace")[-300:]})
+    c.extra["deep_constructions"] = deep
     c.assumptions += ["representative typed leaves in TLC (word 2^1, 2^2; jets 2->1, 2x2->2, 1->2); all Core/Elements jets "
                       "appear as leaves in the recorded direction with their declared types",
                       "the reference Typing!Infer is plain unification + cycle check + free->unit"]
